@@ -149,18 +149,26 @@ func (ms *Modules) resolveIdentities() []error {
 			ms.typeDict.identities.dict[keyName] = *r
 		}
 
-		// Hoist up all identities in our included submodules.
+		// Hoist up all identities in our included submodules, and in
+		// the submodules those include in turn.
 		// We could just do a range on ms.SubModules, but that
 		// might process a submodule that no module included.
-		for _, in := range mod.Include {
-			if in.Module == nil {
-				continue
-			}
-			for _, i := range in.Module.Identities() {
-				keyName, r := newResolvedIdentity(in.Module, i)
-				ms.typeDict.identities.dict[keyName] = *r
+		hoisted := map[*Module]bool{}
+		var hoist func(m *Module)
+		hoist = func(m *Module) {
+			for _, in := range m.Include {
+				if in.Module == nil || hoisted[in.Module] {
+					continue
+				}
+				hoisted[in.Module] = true
+				for _, i := range in.Module.Identities() {
+					keyName, r := newResolvedIdentity(in.Module, i)
+					ms.typeDict.identities.dict[keyName] = *r
+				}
+				hoist(in.Module)
 			}
 		}
+		hoist(mod)
 	}
 
 	// Now, we want to create for all identities a view of all of their children.
